@@ -17,16 +17,25 @@ import vlib
 from checks.common import run_harness
 
 VALUES = {
-    "hook": {"empty": "hook = []", "program_only": 'hook = ["true"]', "with_args": 'hook = ["/bin/sh", "-c", "exit 0", "%url", "%mimetype"]', "wrong_type": 'hook = "xdg-open"'},
+    "hook": {"empty": "hook = []", "program_only": 'hook = ["true"]', "with_args": 'hook = ["/bin/sh", "-c", "exit 0", "%url", "%mimetype"]', "wrong_type": 'hook = "xdg-open"',
+             "blank_program": ['hook = [""]', 'hook = ["", "%url"]', 'hook = ["  ", "%url"]', 'hook = ["\\t"]']},
     "cache": {"negative": ["cache_size = -3", "cache_size = -9223372036854775808"], "zero": "cache_size = 0", "one": "cache_size = 1", "positive": "cache_size = 7", "huge": "cache_size = 4611686018427387904", "wrong_type": 'cache_size = "big"'},
     "preload": {"negative": ["preload_amount = -2", "preload_amount = -9223372036854775808", "preload_amount = -9223372036854775803", "preload_amount = -9223372036854770000"], "zero": "preload_amount = 0", "positive": "preload_amount = 3", "huge": "preload_amount = 9223372036854775807", "wrong_type": 'preload_amount = "many"'},
-    "timeout": {"negative": ["timeout_seconds = -1", "timeout_seconds = -9223372036854775808"], "zero": "timeout_seconds = 0", "positive": "timeout_seconds = 2", "huge": "timeout_seconds = 9223372037", "fractional": "timeout_seconds = 1.5", "wrong_type": 'timeout_seconds = "soon"'},
+    "timeout": {"negative": ["timeout_seconds = -1", "timeout_seconds = -9223372036854775808"], "zero": "timeout_seconds = 0", "positive": "timeout_seconds = 2", "huge": "timeout_seconds = 9223372037", "fractional": ["timeout_seconds = 1.5", "timeout_seconds = 0.25", "timeout_seconds = 2.0"],
+                "special": ["timeout_seconds = nan", "timeout_seconds = +nan", "timeout_seconds = inf", "timeout_seconds = +inf", "timeout_seconds = -inf", "timeout_seconds = -nan"], "wrong_type": 'timeout_seconds = "soon"'},
     "colour": {"valid": '"#12aB9f"', "empty": '""', "short": '"#123"', "no_hash": '"x12ab9f"', "non_hex": '"#12ab9g"', "signed": '"#+1-2ab"', "wrong_type": "5"},
 }
 
 
-def pick(value, rnd):
-    return rnd.choice(value) if isinstance(value, list) else value
+def pick(value, rnd, variant=None):
+    if not isinstance(value, list):
+        return value
+    return value[variant % len(value)] if variant is not None else rnd.choice(value)
+
+
+# tables nobody knows: with a key of their own, without any, below a known table, below a known key path, written inline
+UNKNOWN_TABLES = [["[nonsense]", "x = 1"], ["[bogus]"], ["[network.proxy]"], ["[style.colors.dark]"], ["fonts = {}"], ["[networks.a]", "[networks.b]"],
+                  ["[[things]]", "x = 1"], ["[media.player]", "name = 1"]]
 
 
 def toml_for(v, rnd):
@@ -36,8 +45,8 @@ def toml_for(v, rnd):
         return ""
     lines = []
     if v["hook"] != "absent":
-        lines += ["[media]", pick(VALUES["hook"][v["hook"]], rnd)]
-    net = [pick(VALUES[k][v[k]], rnd) for k in ("cache", "preload", "timeout") if v[k] != "absent"]
+        lines += ["[media]", pick(VALUES["hook"][v["hook"]], rnd, v.get("variant"))]
+    net = [pick(VALUES[k][v[k]], rnd, v.get("variant")) for k in ("cache", "preload", "timeout") if v[k] != "absent"]
     if v["shape"] == "unknown_key":
         net.append("bogus_key = 1")
     if net:
@@ -48,7 +57,11 @@ def toml_for(v, rnd):
     if v["shape"] == "ok":
         lines += ["[feeds]", "empty = []"]      # a feed that lists nothing is a legitimate configuration
     if v["shape"] == "unknown_table":
-        lines += ["[nonsense]", "x = 1"]
+        t = pick(UNKNOWN_TABLES, rnd, v.get("variant"))
+        if t == ["fonts = {}"]:
+            lines = t + lines       # a key of the root table has to come before the first table header
+        else:
+            lines += t
     if v["shape"] == "syntax_error":
         lines.append(rnd.choice(["= = =", "[network", 'key = "unterminated', "cache_size == 3"]))
     return "\n".join(lines) + "\n"
@@ -79,7 +92,7 @@ def probe(ctx, binary, idx, vec, text):
     steps = [{"step": e["step"], "outcome": e["outcome"]} for e in evs if e["ev"] == "step"]
     begun = [e["step"] for e in evs if e["ev"] == "step_begin"]
     done = any(e["ev"] == "done" for e in evs)
-    ev = {"ev": "config", "idx": idx, "vec": vec, "toml": text if text is not None else "(no file)", "rc": rc}
+    ev = {"ev": "config", "idx": idx, "vec": vec, "toml": text if text is not None else "(no file)", "rc": rc, "timeout_ms": start[0].get("timeout_ms", 0) if start else 0}
     if not start:
         ev.update({"decision": "rejected", "diagnostic": "failed to parse" in txt and rc == 1, "steps": [], "colours": [], "stderr": txt[-300:]})
     else:
@@ -97,8 +110,8 @@ def run(ctx):
     r = ctx.tlc("MC_Config", "MC_Config.cfg").require_clean()
     res.add_tlc(r)
     vectors = ctx.tlc("MC_Config", "Gen_Config.cfg").json_lines("GEN")
-    if len(vectors) != 82320:
-        raise vlib.Inconclusive("expected 82320 class vectors, generator gave %d" % len(vectors))
+    if len(vectors) != 112896:
+        raise vlib.Inconclusive("expected 112896 class vectors, generator gave %d" % len(vectors))
     rnd = random.Random(ctx.seed)
     # the full product of the four fields consumers depend on (other classes benign), then a sample of the rest
     core = [v for v in vectors if v["colour"] in ("absent", "valid") and v["shape"] == "ok" and v["colour"] == "valid"]
@@ -118,15 +131,17 @@ def run(ctx):
         chosen.append({"hook": "absent", "cache": "absent", "preload": "absent", "timeout": "absent", "colour": "absent", "shape": "no_location"})
         for k in range(3):
             chosen.append({"hook": "with_args", "cache": "positive", "preload": "negative", "timeout": "positive", "colour": "valid", "shape": "ok"})
-        for field, classes in (("hook", ["empty"]), ("cache", ["zero", "negative", "one", "huge"]), ("preload", ["negative", "zero", "huge"]), ("timeout", ["negative", "zero", "fractional", "huge"]),
-                               ("colour", ["empty", "short", "no_hash", "non_hex", "signed", "wrong_type"])):
-            for c in classes:
-                base = {"hook": "with_args", "cache": "positive", "preload": "positive", "timeout": "positive", "colour": "valid", "shape": "ok"}
-                base[field] = c
-                chosen.append(base)
     else:
         rnd.shuffle(rest)
         chosen = core + rest[:700]
+    for field, classes in (("hook", ["empty"] + ["blank_program"] * 4), ("cache", ["zero", "negative", "one", "huge"]), ("preload", ["negative", "zero", "huge"]),
+                           ("timeout", ["negative", "zero", "huge"] + ["fractional"] * 3 + ["special"] * 6),
+                           ("colour", ["empty", "short", "no_hash", "non_hex", "signed", "wrong_type"]), ("shape", ["unknown_table"] * len(UNKNOWN_TABLES))):
+        for k, c in enumerate(classes):
+            base = {"hook": "with_args", "cache": "positive", "preload": "positive", "timeout": "positive", "colour": "valid", "shape": "ok"}
+            base[field] = c
+            base["variant"] = k     # which of the concrete values of the class
+            chosen.append(base)
     binary = ctx.go_test_binary("ui")
     events, outs = [], []
     with concurrent.futures.ThreadPoolExecutor(max_workers=12) as ex:
@@ -148,9 +163,9 @@ def run(ctx):
     res.extra["colour_sweep"] = [e for e in events if e["ev"] == "colours"]
     res.rule = ("a case is one real start-up (own process, XDG_CONFIG_HOME) with a TOML file realising a class vector of Config.tla, followed "
                 "- if accepted - by a first fetch, render, page load with movement, external open and feed against the simulator; "
-                "judged by T_Config; distinct = distinct class vector; quick: 70 of the 900 vectors over hook x cache_size x "
+                "judged by T_Config; distinct = distinct class vector; quick: 70 of the 2016 vectors over hook x cache_size x "
                 "preload_amount x timeout_seconds, 60 vectors with malformed colours / unknown keys / syntax errors / missing or empty "
-                "files, and every dangerous class alone; thorough: all 900 plus 700 sampled others; all 2^24 colours swept driver-side")
+                "files, and every dangerous class alone; thorough: all 2016 plus 700 sampled others; all 2^24 colours swept driver-side")
     cs = [e for e in events if e["ev"] == "config"]
     for e in cs[:1] + cs[-1:]:
         res.sample({k: e[k] for k in ("vec", "toml", "decision", "diagnostic", "steps")})
